@@ -1,4 +1,5 @@
 import TriompheModel.Props.Gates
+import TriompheModel.WM.ExGateRelaxed
 /-!
 # C03, schedule half — mutable access is ordered after all former sharers
 
@@ -56,5 +57,15 @@ read ‖ —, drop, acquire gate load reading 1) meets every hypothesis -/
 example : ExC.exX.hb (.oth (0 : ExC.EA)) (.oth (1 : ExC.EA)) :=
   unique_verdict_exclusive ExC.ex_consistent ExC.ex_protocol ExC.ex_corw ExC.ex_viaborn rfl
     (l := (1 : ExC.EA)) rfl rfl (by decide) (0 : ExC.EA) 1 rfl (by decide) (Or.inr ⟨1, rfl, by decide⟩)
+
+/-- Necessity of the Acquire in the gate (model-level witness printed in replay files): a Relaxed gate
+load may read 1 while another thread's payload access is unordered with it. -/
+theorem C03_acquire_needed :
+    Consistent ExGateRelaxed.exX ∧ Protocol ExGateRelaxed.exX .release (some .acquire) ∧
+    CoRW ExGateRelaxed.exX ∧ ViaBorn ExGateRelaxed.exX ∧
+    valRead ExGateRelaxed.exX.ops (some 1) = 1 ∧
+    ¬ ExGateRelaxed.exX.hb (.oth (0 : ExGateRelaxed.EA)) (.oth (1 : ExGateRelaxed.EA)) :=
+  ⟨ExGateRelaxed.ex_consistent, ExGateRelaxed.ex_protocol, ExGateRelaxed.ex_corw, ExGateRelaxed.ex_viaborn,
+   ExGateRelaxed.gate_acquire_needed.1, ExGateRelaxed.gate_acquire_needed.2.1⟩
 
 end C03
